@@ -290,3 +290,9 @@ package promapi
 //@   ensures hit ==> runs == 0 && sets == 0
 //@   ensures old(prom.cache) != nil ==> asked
 //@   ensures result.err != nil ==> sets == 0
+
+// C18: doRequest parses the upstream URI with the error dropped and dereferences the result.
+//@ func Prometheus.doRequest [C18]
+//@   requires urlParses(prom.unsafeURI)
+//@   assumed requires
+//@   safe nil-deref:Path
